@@ -206,6 +206,18 @@ def run_case(acc, seed, tag, d):
             c.app.entity_callbacks["presence"] = c.app.onPresence
             st["fired"] = True
             return
+        elif kind == "truncated-compressed-frame":
+            # a compressed frame whose deflate stream lacks its end (cut in transit before the connection's next frame): the
+            # decoder cannot know the stanza is whole, it has to report it
+            import zlib
+            from vf import refcodec
+            d_ = c.dispatcher
+            tree_ = ("message", {"id": "TRUNC1", "from": "%s@s.whatsapp.net" % B, "t": "1600000000", "type": "text"}, [("enc", {"v": "2", "type": "msg"}, [], gen.blob(r, 700))], None)
+            raw_ = refcodec.encode_canonical(tree_)
+            comp_ = zlib.compress(bytes(raw_[1:]))
+            frame_ = b"\x02" + comp_[:-r.choice([1, 3, 4, 6, 9])]
+            data = d_.srv.encrypt(frame_)
+            c.guarded(lambda: d_.connectionCallbacks.onRecvData(data), "receive:truncated-compressed")
         elif kind == "key-request-without-t":
             # a key-count notification lacking its timestamp attribute (the library cannot parse it: the error goes to the caller)
             W.server.to_client(A, ("notification", {"from": "s.whatsapp.net", "type": "encrypt", "id": "nkbad1"}, [("count", {"value": "3"}, [], None)], None))
@@ -448,7 +460,7 @@ def run_case(acc, seed, tag, d):
     if d["kind"] == "failpoint":
         if not any(("FailpointError" in str(e)) for e in errs):
             bad("error-swallowed:%s" % desc_site, "the failure was not reported to any caller (errors seen: %s)" % ([str(e)[:80] for e in errs][:2]))
-    elif d["kind"] in ("unencodable", "oversized", "send-while-down", "undecodable-frame", "unknown-picture-notification", "app-callback-raises", "unknown-stream-error", "key-request-without-t"):
+    elif d["kind"] in ("unencodable", "oversized", "send-while-down", "undecodable-frame", "unknown-picture-notification", "app-callback-raises", "unknown-stream-error", "key-request-without-t", "truncated-compressed-frame"):
         if not errs:
             bad("error-swallowed:%s" % d["kind"], "the failure was not reported to any caller")
     # (b) lock census
@@ -517,7 +529,8 @@ def run_case(acc, seed, tag, d):
     W.close()
 
 
-NATURALS = ["unencodable", "send-while-down", "undecodable-frame", "unknown-picture-notification", "app-callback-raises", "unknown-stream-error", "key-request-without-t"]
+NATURALS = ["unencodable", "send-while-down", "undecodable-frame", "unknown-picture-notification", "app-callback-raises", "unknown-stream-error", "key-request-without-t",
+            "truncated-compressed-frame"]
 
 
 def keyfetch_failure_case(acc, seed, tag, how):
